@@ -18,18 +18,22 @@ enum RK {
 enum DK {
     Compliant,
     NonCompliant,
+    /// every guarded rule is SKIP on this document
+    NotApplicable,
     Malformed,
     Empty,
 }
 
 fn rules_text(u: &mut Choices, k: RK, i: usize) -> String {
     match k {
-        RK::Pass => [format!("rule ok{} {{\n  b == 'x'\n}}\n", i), format!("rule ok{}a {{\n  b exists\n}}\nrule ok{}b when zz exists {{\n  a == 1\n}}\n", i, i)][u.below(2)].clone(),
+        RK::Pass => [format!("rule ok{} when kind == 'app' {{\n  b == 'x'\n}}\n", i), format!("rule ok{} {{\n  b == 'x'\n}}\n", i), format!("rule ok{}a {{\n  b exists\n}}\nrule ok{}b when zz exists {{\n  a == 1\n}}\n", i, i)][u.below(3)].clone(),
         RK::Fail => [
+            format!("rule chk{} when kind == 'app' {{\n  a == 1 <<a must be 1>>\n}}\n", i),
+            format!("rule chk{} when kind == 'app' {{\n  a == 1\n}}\nrule other{} when kind == 'app' {{\n  b exists\n}}\n", i, i),
             format!("rule chk{} {{\n  a == 1 <<a must be 1>>\n}}\n", i),
             format!("rule pre{} {{\n  b == 'x'\n}}\nrule chk{} {{\n  a < 2\n}}\nrule post{} when zz exists {{\n  a == 1\n}}\n", i, i, i),
             format!("rule chk{} {{\n  l[*] == 1 or l[*] == 2\n  a == 1\n}}\n", i),
-        ][u.below(3)]
+        ][u.below(5)]
         .clone(),
         RK::Skip => format!("rule sk{} when zz exists {{\n  a == 1\n}}\n", i),
         RK::Blank => ["", "# only a comment\n", "\n\n"][u.below(3)].to_string(),
@@ -47,8 +51,9 @@ fn rules_text(u: &mut Choices, k: RK, i: usize) -> String {
 }
 fn data_text(u: &mut Choices, k: DK) -> String {
     match k {
-        DK::Compliant => ["{\"a\":1,\"b\":\"x\",\"l\":[1,2]}", "a: 1\nb: x\nl: [1, 2]\n"][u.below(2)].to_string(),
-        DK::NonCompliant => ["{\"a\":2,\"b\":\"x\",\"l\":[1,3]}", "a: 2\nb: x\nl:\n  - 1\n  - 3\n"][u.below(2)].to_string(),
+        DK::Compliant => ["{\"kind\":\"app\",\"a\":1,\"b\":\"x\",\"l\":[1,2]}", "kind: app\na: 1\nb: x\nl: [1, 2]\n"][u.below(2)].to_string(),
+        DK::NonCompliant => ["{\"kind\":\"app\",\"a\":2,\"b\":\"x\",\"l\":[1,3]}", "kind: app\na: 2\nb: x\nl:\n  - 1\n  - 3\n"][u.below(2)].to_string(),
+        DK::NotApplicable => ["{\"kind\":\"other\",\"a\":2,\"b\":\"x\",\"l\":[1,3]}", "kind: other\na: 1\nb: x\nl: [1, 2]\n"][u.below(2)].to_string(),
         DK::Malformed => ["{\"a\": [1, 2", "a: 1\n b: 2\n", "{\"a\": 1}}", "a: 'x\n"][u.below(4)].to_string(),
         DK::Empty => ["", "  \n", "\n"][u.below(3)].to_string(),
     }
@@ -232,7 +237,7 @@ fn gen_vcase(u: &mut Choices) -> VCase {
     let nr = u.range(1, 3);
     let nd = u.range(1, 3);
     let rk = [RK::Pass, RK::Fail, RK::Skip, RK::Fail, RK::Pass, RK::Blank, RK::Broken, RK::EvalErr];
-    let dk = [DK::Compliant, DK::NonCompliant, DK::Compliant, DK::NonCompliant, DK::Compliant, DK::Malformed, DK::Empty];
+    let dk = [DK::Compliant, DK::NonCompliant, DK::Compliant, DK::NonCompliant, DK::NotApplicable, DK::NotApplicable, DK::Malformed, DK::Empty];
     let rules: Vec<String> = (0..nr).map(|i| {
         let k = rk[u.below(rk.len())];
         rules_text(u, k, i)
@@ -407,7 +412,7 @@ pub fn replay(case: &J) -> CaseResult {
 
 pub fn run(tier: Tier, seed: u64) -> i32 {
     let spec = EvidenceSpec {
-        rule: "validate: 1-3 rules files of kind {all-PASS, some-FAIL, all-SKIP, blank, syntactically broken (6 shapes), evaluation error (3 shapes)} x 1-3 data files of kind {compliant, non-compliant, malformed (4 shapes), empty} in generated order x invocation {plain, --structured json/yaml/junit/sarif, --payload plain/structured, data on stdin, rules and data as directories, a missing path}. The expected exit code is computed from facts established through other code paths: `parse-tree` decides whether a rules text parses, run_checks decides the status of every (rules, data) pair alone; then 0 / 19 / 5 / any non-zero / error-not-0-or-19 by the rule of the property statement. Stage 'validate-binary' runs the same through the real cfn-guard binary (process exit status, `main`'s Err -> 255). test: rules {ok, broken} x spec {ok, malformed, unknown status word} x {all expectations met, one mismatch} x {single file, --dir} x {console, json, yaml, junit}: 0 / 7 / non-zero. Non-trivial: the pairs of the run have at least two different individual outcomes; distinct by hash of all texts and the invocation.".into(),
+        rule: "validate: 1-3 rules files of kind {all-PASS, some-FAIL, all-SKIP, blank, syntactically broken (6 shapes), evaluation error (3 shapes)} x 1-3 data files of kind {compliant, non-compliant, not applicable (every guarded rule SKIPs), malformed (4 shapes), empty} in generated order x invocation {plain, --structured json/yaml/junit/sarif, --payload plain/structured, data on stdin, rules and data as directories, a missing path}. The expected exit code is computed from facts established through other code paths: `parse-tree` decides whether a rules text parses, run_checks decides the status of every (rules, data) pair alone; then 0 / 19 / 5 / any non-zero / error-not-0-or-19 by the rule of the property statement. Stage 'validate-binary' runs the same through the real cfn-guard binary (process exit status, `main`'s Err -> 255). test: rules {ok, broken} x spec {ok, malformed, unknown status word} x {all expectations met, one mismatch} x {single file, --dir} x {console, json, yaml, junit}: 0 / 7 / non-zero. Non-trivial: the pairs of the run have at least two different individual outcomes; distinct by hash of all texts and the invocation.".into(),
         assumptions: vec!["`well-formed data` for the expectation is decided by serde_yaml accepting the text (the data kinds are chosen so that all loaders agree)".into()],
     };
     execute("C06", tier, seed, spec, &replay, &|run: &Session| {
